@@ -51,6 +51,8 @@ OwnedIn(m, w) == { t \in TxV : w[t] # NoneV /\ m[w[t]].on }
 
 ResetArgs == {<<>>, <<"t2">>, <<"t2", "t3">>, <<"t1">>}
 DeferArgs == {<<"t1">>, <<"t3", "t2">>, <<"t1", "t2", "t3">>}
+\* batches announced while a member is guarded: every order of the three transactions and the pairs
+AnnounceArgs == { x \in UNION { [1..n -> TxV] : n \in 2..3 } : \A i, j \in DOMAIN x : i # j => x[i] # x[j] }
 
 \* a proposal that is being announced (and deferred) holds no transaction guarded by an
 \* installed proposal: that case belongs to the duplicate guard of cosiSendAnnouncement
@@ -60,6 +62,8 @@ OtherOps(m, w) ==
       \cup { [op |-> "Defer", txs |-> txs, how |-> how] :
                txs \in { x \in DeferArgs : Range(x) \cap OwnedIn(m, w) = {} },
                how \in {"nostate", "stale", "late"} }
+      \cup { [op |-> "Announce", txs |-> txs] :
+               txs \in { x \in AnnounceArgs : Range(x) \cap OwnedIn(m, w) # {} } }
 
 \* Init enumerates the decision table (nested quantifiers: TLC builds no intermediate set)
 Init ==
@@ -84,6 +88,9 @@ RequeueAllBreaks == StepOK(Pre, c.o, PostAll)
 \* a proposal with the threshold reached but an unanswered commitment expires (must be violated)
 ReachPartialExpires == ~(c.o.op = "Expire" /\ \E a \in AggV : a \in MustExpire(Pre, c.o) /\ Pre.agg[a].nc >= Base
                                                               /\ Pre.agg[a].nr > 0 /\ Pre.agg[a].nr < Pre.agg[a].nc)
+\* a deferred batch whose guarded member is not last and whose later companion is pending (must be violated)
+ReachGuardedFirst == ~(c.o.op = "Announce" /\ Guarded(Pre, c.o.txs[1]) /\ Len(c.o.txs) = 3
+                        /\ ~Guarded(Pre, c.o.txs[3]) /\ ~Eligible(Pre, c.o.txs[3]) /\ Eligible(Post, c.o.txs[3]))
 ReachRequeued == ~(\E t \in TxV : ~Eligible(Pre, t) /\ Eligible(Post, t))
 ReachOwnedKept == ~(\E t \in TxV : OwnedByActive(Pre, c.o, t) /\ t \in RetiredTxs(Pre, c.o)
                                      /\ ~Pre.final[t] /\ HasBody(Pre, t) /\ ~Eligible(Post, t))
